@@ -184,6 +184,11 @@ func splitKind(kind string) (class, typ string) {
 // (evidence: coverage.most_expensive_case.per_kind); a call that does not
 // return is reported after 20 s of CPU time instead of 60.
 func (h *histProp) KindCPU(kind, tier string) int {
+	if kind == "overlap" {
+		// (three rounds of up to eight histories with their oracles: 10 s of
+		// CPU time measured for the optimum oracle of C11)
+		return 300
+	}
 	switch class, _ := splitKind(kind); class {
 	case "", "corpus", "long", "fixed", "mid", "duo":
 		if tier == "thorough" {
@@ -216,9 +221,10 @@ func (h *histProp) Gen(kind string, idx int64, seed int64, tier string) core.Cas
 			pc.Cfg.TameBig()
 			oc.Sub = append(oc.Sub, pc)
 		}
-		if idx%4 == 3 {
+		if idx%4 == 3 && h.id != "C11" {
+			// (not for C11: its optimum oracle would need minutes for these)
 			// four instances of one type with one configuration work through
-			// streams of 60-120 kB in blocks of 0.5-2 KiB at the same time
+			// streams of 25-50 kB in blocks of 0.5-2 KiB at the same time
 			// (tenths of seconds of work each, so that the calls really overlap)
 			typ := "OSAP"
 			ok := false
@@ -236,9 +242,9 @@ func (h *histProp) Gen(kind string, idx int64, seed int64, tier string) core.Cas
 			cfg.TameBig()
 			oc.Sub = oc.Sub[:0]
 			for g := 0; g < 4; g++ {
-				stream := gen.Family(r, []string{"text", "rand4", "lzsynth", "text"}[g], 60000+r.Intn(60000), cfg.Hint())
+				stream := gen.Family(r, []string{"text", "rand4", "lzsynth", "text"}[g], 25000+r.Intn(25000), cfg.Hint())
 				var ops []POp
-				for len(ops) < 400 {
+				for len(ops) < 160 {
 					ops = append(ops, POp{K: "write", A: 1, B: 0})
 					for j := 0; j < cfg.BufferSize/cfg.BlockSize+1; j++ {
 						ops = append(ops, POp{K: "parse", A: r.Intn(2)})
